@@ -179,6 +179,16 @@ def run(ctx: Ctx):
     cuts = []
     shortv = sorted(set(texts_valid), key=lambda t: (len(t), t))
     pick = shortv[:40] + rng.sample(shortv, min(len(shortv), 60 if ctx.quick else 600))
+    # ... and for every item type the three shortest printed texts whose root is an item of that type (with and without values)
+    by_type = {}
+    for t_ in shortv:
+        m_ = t_.lstrip()[1:].split()
+        if t_.lstrip().startswith("<") and m_:
+            by_type.setdefault(m_[0].rstrip(">"), []).append(t_)
+    for ty, ts in sorted(by_type.items()):
+        with_values = [t_ for t_ in ts if len(t_.split()) > 3][:2]
+        pick += ts[:2] + with_values
+    ctx.extra["root_types_truncated"] = sorted(by_type)
     for text in pick:
         for k in range(1, len(text)):
             cuts.append(text[:k])
